@@ -458,10 +458,8 @@ func (g *chainGen) observe() {
 
 const hugeCache = 2 << 20
 
-// dumpOK: the Lean Model can name every flush decision so far (cache sizes 0 or 2 MiB only).
-func (g *chainGen) dumpOK() bool {
-	return g.modelAlive && (g.c.cache == 0 || g.c.cache == hugeCache)
-}
+// dumpOK: the dump op compares the abstraction and the safety invariant only, for any cache size.
+func (g *chainGen) dumpOK() bool { return true }
 
 // restart emits unclean shutdowns: possibly interrupted start-ups (Y) followed by one that
 // completes (X), with cache sizes that differ from the one used before.
@@ -476,11 +474,9 @@ func (g *chainGen) restart() {
 		}
 		return uint64(r.Range(200, 40000))
 	}
-	if g.modelAlive {
-		for n := r.Intn(3); n > 0; n-- {
-			g.c.cache = pick(true)
-			g.ops = append(g.ops, fmt.Sprintf("Y%d", g.c.cache))
-		}
+	for n := r.Intn(3); n > 0; n-- {
+		g.c.cache = pick(false)
+		g.ops = append(g.ops, fmt.Sprintf("Y%d", g.c.cache))
 	}
 	g.c.cache = pick(false)
 	if g.c.cache != 0 && g.c.cache != hugeCache {
@@ -640,24 +636,37 @@ func genCache(r *core.Rand, maxOps int) (string, bool) {
 	n := 3 + r.Intn(maxOps)
 	nOps := 2 + r.Intn(4) // few outpoints, so that they collide often
 	var ops []string
-	op := func() string { return fmt.Sprintf("%d.%d", 1+r.Intn(nOps), r.Intn(2)) }
 	scripts := []string{"51", "51", "52", "-", "6a", "0151", "4c", "6a01ff"}
+	dead := map[string]bool{"6a": true, "4c": true, "6a01ff": true}
+	present := map[string]bool{} // the generator's own plain set, to keep additions legal
 	best := 0
 	for i := 0; i < n; i++ {
+		o := fmt.Sprintf("%d.%d", 1+r.Intn(nOps), r.Intn(2))
 		switch x := r.Intn(100); {
 		case x < 35:
-			ops = append(ops, fmt.Sprintf("a%s:%d:%s:%d:%d", op(), r.Range(0, 5000), scripts[r.Intn(len(scripts))], r.Intn(2), 1+r.Intn(9)))
+			// an output is only ever added while it is absent (BIP30); what happens otherwise is
+			// not fixed by the property
+			if present[o] {
+				ops = append(ops, "s"+o)
+				delete(present, o)
+				continue
+			}
+			sc := scripts[r.Intn(len(scripts))]
+			ops = append(ops, fmt.Sprintf("a%s:%d:%s:%d:%d", o, r.Range(0, 5000), sc, r.Intn(2), 1+r.Intn(9)))
+			if !dead[sc] {
+				present[o] = true
+			}
 		case x < 65:
-			ops = append(ops, "s"+op())
+			ops = append(ops, "s"+o)
+			delete(present, o)
 		case x < 80:
-			ops = append(ops, "f"+op())
+			ops = append(ops, "f"+o)
 		default:
 			if r.Chance(2, 3) {
 				best++
 			}
-			// threshold: 0 far, 1 zero, 2 exactly reached, 3 one byte short; timer: 0 now, 1 long ago,
-			// 2 just under the interval, 3 just over
-			ops = append(ops, fmt.Sprintf("w%c%d%d:%d", "rpi"[r.Intn(3)], r.Intn(4), r.Intn(4), best))
+			// threshold: 0 far above the usage, 1 zero; timer: 0 just flushed, 1 long ago
+			ops = append(ops, fmt.Sprintf("w%c%d%d:%d", "rpi"[r.Intn(3)], r.Intn(2), r.Intn(2), best))
 		}
 	}
 	return "C03 cache " + strings.Join(ops, " "), n >= 4
